@@ -97,7 +97,7 @@ theorem fingerprints_expected : fingerprints = [
   ("mergeset_index.go:maxStoredSequence", "3e555a2dc1cc9eab"),
   ("mergeset_index.go:DeleteTSIDs", "c5343af550c2e3d9"),
   ("mergeset_index.go:WriteDeleteTsids", "99592b38091da816"),
-  ("mergeset_index.go:GetDeletedTSIDs", "bdf6d668f3d129e1"),
+  ("mergeset_index.go:GetDeletedTSIDs", "13dc4e64de7b41be"),
   ("mergeset_index.go:SearchSeriesIterator", "658e5bca4ead85f0"),
   ("mergeset_index.go:SearchSeries", "54b76333fe035296"),
   ("mergeset_index.go:putIndexSearch", "82d42f223cfae950"),
